@@ -32,14 +32,14 @@ def behaviours(chk, label, consts, simulate=None, workers=12):
     return res["emits"]
 
 
-def presentation(beh, dt, zone="UTC", e0=None, thr=(1.0, 1.0)):
+def presentation(beh, dt, zone="UTC", e0=None, thr=(1.0, 1.0), sub=1):
     """thr: factors on the two thresholds, inside the range consistent with the truth: drizzle carries 1 rain
     unit and every storm step >= 2 (s in [1, 2) units); recession increments are negative, drizzle 0 and storm
     steps >= 2 mm (j in [0, 2) mm per step)"""
     syden = beh["syden"]
     dt_h = dt / 3600.0
     pres = P.Presentation(dt=dt, e0=e0, s_real=(1.0 / syden) / dt_h, j_real=1.0 / dt_h, S=1, J=1, gap=1,
-                          gap_rain=0, zone=zone)
+                          gap_rain=0, zone=zone, sub=sub)
     pres.s_real *= thr[0]
     pres.j_real *= thr[1]
     rec = []
@@ -63,9 +63,9 @@ def tstar(beh):
     return T
 
 
-def run_workflow(beh, dt, zone, e0, delta, wd, tag, ref=None, keep=False, et_of=None, thr=(1.0, 1.0)):
+def run_workflow(beh, dt, zone, e0, delta, wd, tag, ref=None, keep=False, et_of=None, thr=(1.0, 1.0), sub=1):
     """load, classify, set-zeta-grid, recession, rise; returns (wf, outcomes)"""
-    pres, rec = presentation(beh, dt, zone, e0, thr)
+    pres, rec = presentation(beh, dt, zone, e0, thr, sub)
     if et_of is not None:
         pres.et_of = et_of
     rain_rows, et_rows, level_rows = pres.series(rec)
@@ -169,6 +169,7 @@ def _conn(wf):
 DTS = [1800, 3600, 900]
 DELTAS = [1.0, 0.5, 2.0]
 ZONES = ["UTC", "Africa/Lagos", "Etc/GMT+5"]
+SUBS = [1, 1, 1, 2]      # level readings per grid step
 
 
 def _worker(batch):
@@ -181,14 +182,15 @@ def _worker(batch):
             zone = ZONES[(idx // 9) % 3]
             e0 = P.epoch_of(2011, 5, 17) + (idx % 7) * 86400 * 30
             thr = [(1.0, 1.0), (1.75, 0.25), (1.25, 1.9)][(idx // 27) % 3 if idx >= 27 else idx % 3]
-            wf, outc = run_workflow(beh, dt, zone, e0, delta, wd, "h%d_%d" % (os.getpid(), idx), thr=thr)
+            sub = SUBS[(idx // 2) % 4]
+            wf, outc = run_workflow(beh, dt, zone, e0, delta, wd, "h%d_%d" % (os.getpid(), idx), thr=thr, sub=sub)
             try:
                 probs = judge_c06(beh, wf, outc, delta)
             except Exception as e:  # noqa
                 probs = ["harness could not judge: %r" % (e,)]
             finally:
                 wf.cleanup()
-            out.append((idx, dt, delta, zone, e0, probs))
+            out.append((idx, dt, delta, zone, e0, probs, thr, sub))
     finally:
         rm(wd)
     return out
@@ -230,8 +232,10 @@ def c06(chk, tier):
     jobs = [items[i:i + 20] for i in range(0, len(items), 20)]
     with mp.Pool(12) as pool:
         for out in pool.imap_unordered(_worker, jobs):
-            for idx, dt, delta, zone, e0, probs in out:
+            for idx, dt, delta, zone, e0, probs, thr, sub in out:
                 beh = behs[idx]
+                if sub > 1:
+                    chk.count("level_file_finer_than_grid")
                 chk.count("evaluations")
                 chk.count("traces_validated_against_impl")
                 d2 = int(round(delta * 2))
@@ -242,16 +246,18 @@ def c06(chk, tier):
                 elif _ok(beh, "recOK", d2) or _ok(beh, "riseOK", d2):
                     chk.count("one_curve_assemblable")
                 if probs:
-                    chk.violation("workflow on planted behaviour %s (dt %d, grid %g, %s): %s" % (
-                        [(e["type"], e["n"]) for e in beh["ev"]], dt, delta, zone, "; ".join(probs)),
+                    chk.violation("workflow on planted behaviour %s (dt %d, grid %g, %s, %d level readings per "
+                                  "step): %s" % ([(e["type"], e["n"]) for e in beh["ev"]], dt, delta, zone, sub,
+                                                 "; ".join(probs)),
                         {"kind": "hydro", "beh": beh, "dt": dt, "delta": delta, "zone": zone, "e0": e0,
-                         "detail": probs})
+                         "thr": list(thr), "sub": sub, "detail": probs})
 
 
 def replay_file(chk, rp):
     wd = workdir("rp")
     try:
-        wf, outc = run_workflow(rp["beh"], rp["dt"], rp["zone"], rp["e0"], rp["delta"], wd, "rp")
+        wf, outc = run_workflow(rp["beh"], rp["dt"], rp["zone"], rp["e0"], rp["delta"], wd, "rp",
+                                thr=tuple(rp.get("thr", (1.0, 1.0))), sub=rp.get("sub", 1))
         probs = judge_c06(rp["beh"], wf, outc, rp["delta"])
     finally:
         rm(wd)
